@@ -288,7 +288,32 @@ class C20(Prop):
             b = [outs, b[1], b[2]]
         return b
 
+    @staticmethod
+    def _oevents(c):
+        """an :overlap history in the event alphabet of Model/FiltersOverlap.v: calls, and -- at every release point and at the end --
+        as many `callback returns` as there can be callbacks running (surplus ones are no-ops)"""
+        evs = []
+        for i, (t, v) in enumerate(c["calls"]):
+            evs.append([0, t, v])
+            if i in c["release_after"]:
+                evs += [[1]] * (i + 1)
+        return evs + [[1]] * len(c["calls"])
+
     def model_many(self, cases):
+        ov = [(i, c) for i, c in enumerate(cases) if c["kind"].endswith(":overlap") and len(c["kinds"]) == 1]
+        if ov:
+            rest = [c for c in cases if not (c["kind"].endswith(":overlap") and len(c["kinds"]) == 1)]
+            r_rest = iter(self.model_many(rest)) if rest else iter([])
+            # the event-level model of overlapping calls (proved equal to the sequential one on the same calls: C20_overlap)
+            r_ov = iter(model.call_many("orun", [[c["kinds"][0], c["t0"], self._oevents(c)] for _, c in ov]))
+            out = []
+            for c in cases:
+                if c["kind"].endswith(":overlap") and len(c["kinds"]) == 1:
+                    r = next(r_ov)
+                    out.append([[self._fix(o) for o in r[0]], [self._fixv(x) for x in r[1]], r[2]])
+                else:
+                    out.append(next(r_rest))
+            return out
         one = [(i, c) for i, c in enumerate(cases) if len(c["kinds"]) == 1]
         two = [(i, c) for i, c in enumerate(cases) if len(c["kinds"]) == 2]
         out = [None] * len(cases)
